@@ -160,6 +160,9 @@ func (s *Server) SemanticTokensFull(ctx context.Context, params *protocol.Semant
 	}
 
 	if doc == "" {
+		// this answer carries no result id: forget the previous one, or a later
+		// delta request would be answered relative to tokens the client dropped
+		tokenCache.delete(params.TextDocument.URI)
 		return &protocol.SemanticTokens{Data: []uint32{}}, nil
 	}
 
@@ -199,6 +202,7 @@ func (s *Server) SemanticTokensFullDelta(ctx context.Context, params *protocol.S
 	}
 
 	if doc == "" {
+		tokenCache.delete(params.TextDocument.URI)
 		return &protocol.SemanticTokens{Data: []uint32{}}, nil
 	}
 
